@@ -4,14 +4,15 @@ namespace OciModel.Driver.BlobReader
 open OciModel OciModel.BlobReader
 
 /-- `rd <verify 0|1|2> <size> <digest> <chunk>*` → `eof <data>` | `err <relayed>`;
-`2` = the whole blob asked for through the range call (`GetBlobRange(…, 0, -1)`): verified like `1`. -/
+`2` = the whole blob asked for through the range call (`GetBlobRange(…, 0, -1)`), `3` = a manifest read
+through its tag, `4` = a manifest by digest: all verified like `1`. -/
 def drive : List String → String
   | v :: size :: dg :: chunks =>
     match size.toNat?, Hex.decodeTok dg, chunks.mapM Hex.decodeTok with
     | some size, some dg, some cs =>
       -- the driver realises H by SHA-256 only; other algorithms are judged by the oracle
       if !(strBytes "sha256:").isPrefixOf dg then "skip" else
-      match readAll Sha256.digest (v == "1" || v == "2") size dg [] cs with
+      match readAll Sha256.digest (v != "0") size dg [] cs with
       | .eof b => "eof " ++ Hex.encodeTok b
       | r => "err " ++ Hex.encodeTok r.relayed
     | _, _, _ => "bad-op"
